@@ -17,7 +17,7 @@ TECHNIQUE = ("static analysis: constant tables and XPath literals parsed into st
 EXPLANATION = (
     "Decides table / predicate clauses that the disk lists depend on: VMX dictionary parsing (lines split at \\n, blank and # lines "
     "skipped, split at the first '=', key stripped and lower-cased, value stripped of spaces and quotes, unconditional store so the "
-    "last assignment wins), device classes exactly {scsi, sata, ide, nvme}, every literal key looked up in those dictionaries is "
+    "last assignment wins), device classes exactly {scsi, sata, ide, nvme}, device properties grouped by class and bus:unit id, every literal key looked up in those dictionaries is "
     "lower-case, the disk filter's decision table {file name present and (no device type or 'disk' in its lower-cased value)}; OVF "
     "namespace URIs, the three XPaths (steps and the ResourceType = 17 predicate), attribute names, host-resource handling "
     "(ovf: prefix removed, /disk/ -> disk -> file, /file/ -> file, anything else raises); VirtualBox XPath predicate set "
@@ -150,6 +150,33 @@ def run(chk: Check):
     sp = [n for n in _own_nodes(dctx.func) if isinstance(n, ast.Call) and isinstance(n.func, ast.Attribute) and n.func.attr == "split"]
     oks = bool(sp) and len(sp[0].args) == 2 and isinstance(sp[0].args[0], ast.Constant) and sp[0].args[0].value == "." and isinstance(sp[0].args[1], ast.Constant) and sp[0].args[1].value == 1
     chk.decide(oks, "K-GRAMMAR", "vmx:device-property-split", sp[0] if sp else dctx.func, "device and property are separated at the first '.'")
+    # devices are distinguished by (device class, bus:unit): scsi0:0 and sata0:0 are two devices
+    pst = [n for n in _own_nodes(dctx.func) if isinstance(n, ast.Assign) and isinstance(n.targets[0], ast.Subscript)]
+    okkey = False
+    found_base = None
+    for n in pst:
+        base = R.expr(dctx, n.targets[0].value, dctx.cfg.node_of[n])
+        found_base = base
+        # .setdefault(.setdefault(devices, <class>, {}), <device id>, {})
+        if base[0] == "call" and base[1] == ".setdefault" and len(base[2]) >= 2:
+            inner, dev_id = base[2][0], base[2][1]
+            if inner[0] == "call" and inner[1] == ".setdefault" and len(inner[2]) >= 2:
+                cls_key = inner[2][1]
+                vals_ = None
+                if cls_key[0] == "iter":
+                    src_ = cls_key[1]
+                    if S.is_const(src_):
+                        vals_ = tuple(src_[1])
+                    elif src_[0] in ("tuple", "list") and all(S.is_const(x) for x in src_[1]):
+                        vals_ = tuple(x[1] for x in src_[1])
+                is_class = classes is not None and vals_ == tuple(classes[1])
+                okkey = is_class and S.contains(dev_id, lambda x: x == cls_key) and dev_id != cls_key
+        elif base[0] == "sub" and base[1][0] == "sub":
+            okkey = True  # devices[class][id][property]
+    chk.decide(okkey, "K-PROV", "vmx:devices-keyed-by-class-and-id", pst[0] if pst else dctx.func,
+               "device properties are collected per (device class, bus:unit) pair" if okkey else
+               "device properties are not keyed by the device class as well: devices of different classes at the same bus:unit address are merged "
+               "(a CD-ROM's device type can hide a hard disk, one file name overwrites the other)", found=S.show(found_base)[:200] if found_base else "no store")
     sw = [n for n in _own_nodes(dctx.func) if isinstance(n, ast.Call) and isinstance(n.func, ast.Attribute) and n.func.attr == "startswith"]
     chk.decide(bool(sw), "K-GRAMMAR", "vmx:class-prefix-test", sw[0] if sw else dctx.func, "settings are attributed to a device class by prefix")
 
